@@ -260,6 +260,12 @@ def collision_db(r, force_triple=False):
         lo_f = L_f // 2 + 2 if len(doc["structure"]["genes"]) > 1 else 3
         used_f = {e[0] + d_ for a_ in als.values() for e in a_["mutations"] if isinstance(e[0], int) for d_ in range(-3, 5)}
         cand_f = [q for q in range(lo_f, L_f - 4) if q not in used_f]
+        if cand_f and r.random() < 0.5:
+            # ... or the allele that names the structure carries the variant itself (anywhere in the gene: in the part the
+            # fusion keeps or in the part the pseudogene replaces) and there is no bare allele of that structure
+            q = r.choice(cand_f)
+            als[src]["mutations"].append([q, f"{seq_f[q - 1]}>{r.choice([c for c in 'ACGT' if c != seq_f[q - 1]])}", "-", "functional"])
+            cand_f = []
         for j_ in range(r.randint(1, 2)):
             if not cand_f:
                 break
